@@ -157,9 +157,6 @@ def split_iter(src, sep=None, maxsplit=None):
 
     if maxsplit is not None:
         maxsplit = int(maxsplit)
-        if maxsplit == 0:
-            yield [src]
-            return
 
     if callable(sep):
         sep_func = sep
@@ -172,18 +169,18 @@ def split_iter(src, sep=None, maxsplit=None):
     cur_group = []
     split_count = 0
     for s in src:
-        if maxsplit is not None and split_count >= maxsplit:
-            def sep_func(x): return False
         if sep_func(s):
             if sep is None and not cur_group:
                 # If sep is none, str.split() "groups" separators
                 # check the str.split() docs for more info
                 continue
-            split_count += 1
-            yield cur_group
-            cur_group = []
-        else:
-            cur_group.append(s)
+            if maxsplit is None or split_count < maxsplit:
+                split_count += 1
+                yield cur_group
+                cur_group = []
+                continue
+            # out of splits: the separator is part of the last group
+        cur_group.append(s)
 
     if cur_group or sep is not None:
         yield cur_group
